@@ -2,6 +2,8 @@
 \* (parameter type classes struct / *struct / *scalar / []struct / []*struct / map[string]*struct / custom
 \* UnmarshalJSON value, pointer, flags) over {omitted, null, good, wrong kind, tag-violating, null element},
 \* positional and named, request and notification, single and batch of one; rows exported.
+\* measured: 18 532 distinct = generated states, depth 8, 4 633 rows (4-5 s on 4 workers)
+\* (FixNullRequired is set by checks/C11.py from the status of its finding in known_findings.json)
 CONSTANTS
   Methods <- MCMethods
   EntryAlphabet <- EntriesTyped
@@ -13,6 +15,7 @@ CONSTANTS
   FixNonRequest = FALSE
   FixLongWs = TRUE
   FarChoices = {FALSE}
+  FixNullRequired = FALSE
   HasValidator = TRUE
   NilPointerSkipsValidation = TRUE
 INIT TableInit
